@@ -249,6 +249,36 @@ class Truth:
             t.pts = [q + d for q in self.pts]
         return t
 
+    def point_at(self, t: float) -> np.ndarray:
+        """curve kinds: the point at coordinate t (arc length from X towards Y, 0 <= t <= span)"""
+        if self.kind == "curve-line":
+            return self.X + t * (self.Y - self.X) / self.chord
+        if self.kind == "curve-circle":
+            return self.circle.P(-self.circle.theta / 2 + t / self.circle.R)
+        run = 0.0
+        for a, b in zip(self.poly[:-1], self.poly[1:]):
+            sl = float(np.linalg.norm(b - a))
+            if t <= run + sl or b is self.poly[-1]:
+                return a + (b - a) * min(1.0, max(0.0, (t - run) / sl))
+            run += sl
+        raise AssertionError
+
+    def slid(self, t0: float, t1: float) -> "Truth":
+        """the same user curve with the end vertices moved along it to coordinates t0 < t1"""
+        import copy
+
+        assert self.kind in CURVE_KINDS
+        t = copy.copy(self)
+        t.base, t.trange = self, (t0, t1)
+        t.X, t.Y = self.point_at(t0), self.point_at(t1)
+        t.chord = float(np.linalg.norm(t.Y - t.X))
+        if self.kind == "curve-line":
+            t.length = t1 - t0
+        elif self.kind == "curve-circle":
+            t.length = t1 - t0
+            t.len_rtol = ((t1 - t0) / self.circle.R / 198.0) ** 2 / 6.0 * 1.01 + 1e-6
+        return t
+
     def full_poly(self) -> List[np.ndarray]:
         """curve-linear: break points including the extensions beyond X and Y, in X->Y sense"""
         s = self.spec
@@ -350,14 +380,16 @@ def check_entry(entry, pa, pb, truth: Truth, facts: Dict[str, Any]) -> None:
     got = [np.asarray(p, float) for p in entry.payload]
     if len(got) != truth.n_points:
         raise Violation("point-count", f"{len(got)} points written, n_points = {truth.n_points}", **facts)
-    span = truth.span()
-    ta, tb = (0.0, span) if forward else (span, 0.0)
+    base = getattr(truth, "base", truth)  # vertices slid along the curve: coordinates stay those of the user's curve
+    t0, t1 = getattr(truth, "trange", (0.0, base.span()))
+    span = t1 - t0
+    ta, tb = (t0, t1) if forward else (t1, t0)
     sgn = 1.0 if tb > ta else -1.0
     step = span / (len(got) + 1)
     prev = ta
     scale = truth.chord + (truth.circle.R if truth.circle else 0.0)
     for i, p in enumerate(got):
-        t, dist = truth.coordinate(p)
+        t, dist = base.coordinate(p)
         if dist > PRINT_TOL + 1e-7 * scale:  # + closest-parameter search error (measured 1e-8 relative)
             raise Violation("point-off-curve", f"point {i} is {dist:.3g} away from the user's curve", **facts)
         # uniform in parameter = uniform in arc length for these curves; 1e-3 of that spacing is the margin
